@@ -28,9 +28,7 @@ class C07(Prop):
     model_targets = ['Exec/Oracle.vo']
     translators = []
     header = 'From RP Require Import Exec.Model Exec.Oracle.'
-    clauses = ['announced_once', 'handed_on_once', 'unscheduled_once', 'not_collected_and_canceled',
-               'outcome_attached', 'announced_before_handed_on', 'exit_code_truthful', 'named_examined_after_launch',
-               'canceled_only_if_running_when_polled', 'handler_examines_every_named_uid']
+    clauses = list(X.C07_CLAUSES)
     row_fn = 'c07_row'
     corr_name = ('Exec.Model.run (istep/cstep/wstep/tstep/kstep) vs the real Popen.work_cb/work/_launch_task/'
                  '_watch/_check_running/cancel_task/control_cb/_to_watcher under the line-granular scheduler')
